@@ -615,6 +615,9 @@ package geometry
 //@   ret have Ends: forall j int :: 0 <= j && j < sNseg(result.baseSeries) ==> (sSeg(result.baseSeries,j).A == ptAt(points,j) && sSeg(result.baseSeries,j).B == ptAt(points, ite(j == len(points)-1, 0, j+1)))
 //@   ret have DomBody: forall j int :: 0 <= j && j < sNseg(result.baseSeries) ==> inDom(sSeg(result.baseSeries,j).A) && inDom(sSeg(result.baseSeries,j).B)
 //@   ret have Dom: seriesInDomSeg(result.baseSeries)
+//@   ensures Box: LineBoxInv(result)
+//@   ret use forall j int :: bboxCovers(points, len(points), j)
+//@   ret have Cover: forall j int :: 0 <= j && j < sNseg(result.baseSeries) ==> (rectHas(sRect(result.baseSeries), sSeg(result.baseSeries,j).A) && rectHas(sRect(result.baseSeries), sSeg(result.baseSeries,j).B))
 
 //@ spec func ptsExact(ps []Point) bool { ptsInDom(ps) && (forall k int :: 0 <= k && k < len(ps) ==> abs(trapCode(ps,k) + trapTerm(ps,k)) < pow53()) }
 //@ spec func holeAt(hs [][]Point, h int) []Point opaque { hs[h] }
@@ -746,8 +749,8 @@ package geometry
 //@ func Poly.Valid
 //@   props C11
 //@   ret use holesValidWitness(poly, $i, polyNHoles(poly))
-//@   requires poly != nil && polyExt(poly) != nil && (PolyInv(poly) || PolyShape(poly) || PolyShapeW(poly))
-//@   ensures result == (sValid(polyExt(poly)) && polyHolesValid(poly, polyNHoles(poly)))
+//@   requires poly != nil ==> (PolyInv(poly) || PolyShape(poly) || PolyShapeW(poly))
+//@   ensures result == (poly == nil || polyExt(poly) == nil || (sValid(polyExt(poly)) && polyHolesValid(poly, polyNHoles(poly))))
 //@   loop 0 invariant polyHolesValid(poly, $i)
 //@   loop 0 assert polyHole(poly, $i) == hole
 //@ func Poly.Empty
